@@ -320,3 +320,60 @@ package goat
 //@ func goat.(*httpReadWriter).Write
 //@   nopanic[C19.nopanic]
 //@   requires ctx != nil
+
+// ---------------------------------------------------------------------------------
+// client connection
+
+//@ objinv[C13.objinv C01.objinv C14.objinv C20.objinv C04.objinv C08.objinv C03.objinv C06.objinv] goat.ClientConn : self.mp != nil && self.codec != nil && self.mp.rw != nil && self.mp.cancel != nil && self.mp.handlers != nil && self.mp.ctx != nil
+//@ objinv[C13.objinv C01.objinv C14.objinv C20.objinv C04.objinv C08.objinv C03.objinv C06.objinv] goat.ClientConn : forall j Int :: 0 <= j && j < len(self.statsHandlers) ==> self.statsHandlers[j] != nil
+
+//@ func goat.headersFromContext
+//@   nopanic[C08.nopanic C04.nopanic C13.nopanic]
+//@   requires ctx != nil
+//@   ensures[C08.no_deadline_no_timeout_header] !ctx_hasdl(ctx) ==> (ctx_has_md_out(ctx) ==> isKvOfOne(result, ctx_md_out(ctx))) && (!ctx_has_md_out(ctx) ==> len(result) == 0)
+//@   ensures[C08.timeout_header_when_deadline] ctx_hasdl(ctx) ==> len(result) >= 1 && result[len(result) - 1] != nil && result[len(result) - 1].Key == "GRPC-Timeout"
+//@     | && bound("ms") && ms >= 1 && result[len(result) - 1].Value == itoa(ms) + "m" && (timeout >= 1000000 ==> ms == timeout / 1000000) && (timeout < 1000000 ==> ms == 1)
+//@   ensures[C04.request_metadata_encoded] ctx_has_md_out(ctx) ==> (forall j Int :: 0 <= j && j < len(result) ==> result[j] != nil)
+
+//@ func goat.(*ClientConn).invoke
+//@   nopanic[C13.nopanic]
+//@   requires ctx != nil && len(opts) == 0
+//@   atcall[C01.request_carries_args C06.unary_request_header C04.request_metadata C08.request_timeout] client.(*RpcMultiplexer).CallUnaryMethod :
+//@     | arg2 != nil && arg2.Method == method && arg2.Source == cc.sourceAddress && arg2.Destination == cc.destAddress && arg2.Headers == headers
+//@     | && arg3 != nil && arg3.Data == bsContent(body) && arg4 == cc.statsHandlers
+//@   atcall[C01.request_bytes] (google.golang.org/grpc/encoding.CodecV2).Marshal : arg1 == args
+//@   atcall[C01.reply_decoded_into_reply] (google.golang.org/grpc/encoding.CodecV2).Unmarshal : bound("replyBody") && replyBody != nil && bufContent(arg1[0]) == replyBody.Data && arg2 == reply
+//@   ensures[C01.one_call C20.one_call] ncalls("call:client.(*RpcMultiplexer).CallUnaryMethod") <= old(ncalls("call:client.(*RpcMultiplexer).CallUnaryMethod")) + 1
+//@   ensures[C03.error_passed_on C13.success_only_with_data] result == nil ==> ncalls("(google.golang.org/grpc/encoding.CodecV2).Unmarshal") == old(ncalls("(google.golang.org/grpc/encoding.CodecV2).Unmarshal")) + 1
+//@   ensures[C20.begin_end_once] ncalls("call:internal.StatsStartServerRPC") == old(ncalls("call:internal.StatsStartServerRPC")) + 1 && ncalls("call:internal.StatsEndRPC") == old(ncalls("call:internal.StatsEndRPC")) + 1
+//@   atcall[C20.end_reports_final_error] internal.StatsEndRPC : arg3 == err
+
+//@ func goat.(*ClientConn).Invoke
+//@   nopanic[C13.nopanic]
+//@   requires ctx != nil && len(opts) == 0
+//@   ensures[C20.interceptor_or_direct_once] ncalls("fnfield:H.goat.ClientConn.unaryInterceptor") + ncalls("call:goat.(*ClientConn).invoke")
+//@     | == old(ncalls("fnfield:H.goat.ClientConn.unaryInterceptor") + ncalls("call:goat.(*ClientConn).invoke")) + 1
+
+//@ func goat.(*ClientConn).newStream$1
+//@   inline
+//@   loop 0 invariant[C20.end_once_per_handler] ncalls("HandleRPC:*google.golang.org/grpc/stats.End") == old(ncalls("HandleRPC:*google.golang.org/grpc/stats.End")) + rangeindex + 1
+
+//@ func goat.(*ClientConn).newStream
+//@   nopanic[C13.nopanic]
+//@   requires ctx != nil && desc != nil && len(opts) == 0
+//@   loop 0 invariant[C20.begin_once_per_handler] ctx != nil && ncalls("HandleRPC:*google.golang.org/grpc/stats.Begin") == old(ncalls("HandleRPC:*google.golang.org/grpc/stats.Begin")) + rangeindex + 1
+//@   loop 0 invariant[C20.begin_once_per_handler] ncalls("HandleRPC:*google.golang.org/grpc/stats.End") == old(ncalls("HandleRPC:*google.golang.org/grpc/stats.End"))
+//@   loop 1 invariant[C20.begin_once_per_handler] ncalls("HandleRPC:*google.golang.org/grpc/stats.End") == loopentry(1, ncalls("HandleRPC:*google.golang.org/grpc/stats.End")) && ncalls("HandleRPC:*google.golang.org/grpc/stats.Begin") == loopentry(1, ncalls("HandleRPC:*google.golang.org/grpc/stats.Begin"))
+//@   ensures[C14.released_on_failed_open] result.1 != nil && bound("beginTime") ==> !(id in cc.mp.handlers)
+//@   ensures[C20.begin_once_end_on_failure] bound("beginTime") ==> ncalls("HandleRPC:*google.golang.org/grpc/stats.Begin") == old(ncalls("HandleRPC:*google.golang.org/grpc/stats.Begin")) + len(cc.statsHandlers)
+//@   ensures[C20.begin_once_end_on_failure] bound("beginTime") && result.1 != nil ==> ncalls("HandleRPC:*google.golang.org/grpc/stats.End") == old(ncalls("HandleRPC:*google.golang.org/grpc/stats.End")) + len(cc.statsHandlers)
+//@   ensures[C20.begin_once_end_on_failure] result.1 == nil ==> ncalls("HandleRPC:*google.golang.org/grpc/stats.End") == old(ncalls("HandleRPC:*google.golang.org/grpc/stats.End"))
+//@   ensures[C06.open_once] ncalls("(types.RpcReadWriter).Write") <= old(ncalls("(types.RpcReadWriter).Write")) + 1
+//@   atcall[C06.open_shape C04.request_metadata C08.request_timeout] (types.RpcReadWriter).Write : arg2 != nil && arg2.Id == id && arg2.Header != nil && arg2.Header.Method == method
+//@     | && arg2.Header.Source == cc.sourceAddress && arg2.Header.Destination == cc.destAddress && arg2.Body == nil && arg2.Status == nil && arg2.Trailer == nil && arg2.Reset_ == nil
+
+//@ func goat.(*ClientConn).NewStream
+//@   nopanic[C13.nopanic]
+//@   requires ctx != nil && desc != nil && len(opts) == 0
+//@   ensures[C20.interceptor_or_direct_once] ncalls("fnfield:H.goat.ClientConn.streamInterceptor") + ncalls("call:goat.(*ClientConn).newStream")
+//@     | == old(ncalls("fnfield:H.goat.ClientConn.streamInterceptor") + ncalls("call:goat.(*ClientConn).newStream")) + 1
